@@ -61,6 +61,9 @@ def check(prop, tier, seed):
             # ... or to a second tonic server of the same process that requires client certificates (the client has none)
             extra.append(dict(r, second_alpn='h2', second_client_auth='required', **{'class': 'second_server_is_strict'}))
     rows = rows + extra
+    # load-balanced channels over two https endpoints (loopback TCP, real time): B's own settings decide whether B is ever talked to
+    base = dict(rows[0], roots='right', name='match', alpn='h2', assume_http2=False, client_auth='none', identity='none', tls_cfg=True)
+    rows = rows + [dict(base, balance_tls=True, b_domain=d, **{'class': 'balanced_tls_endpoints'}) for d in ('wrong.test', 'good.test', 'other.test')]
     presented = {'valid': [_digest(c) for c in _pem_ders('client_c.pem')], 'chain': [_digest(c) for c in _pem_ders('client_chain.pem')]}
     if len(presented['valid']) != 1 or len(presented['chain']) != 2:
         raise ToolError('tls-data: unexpected number of certificates in the client identities')
